@@ -5,6 +5,7 @@ CONSTANTS
   PlaceholderTypedAsCookie = FALSE
   UidChecked = TRUE
   AdWhole = TRUE
+  Hardened = TRUE
   StopAtAuth = TRUE
   CtLenExact = FALSE
   LenChoices <- LenChoicesGen
